@@ -22,7 +22,7 @@ SPEC = dict(
     assumptions=['PWM map non-empty with strictly increasing keys (pm_ok); 0 <= min <= max <= 255', 'outputs of the PWM map are never -1'],
     trusted_base=['Print Assumptions: FloatAxioms.Leibniz.eqb_spec (stdlib axiom, used to lift the computed exactness of float64(max)-float64(min) on 0..255) and the kernel float/int63 primitives; no other axiom', 'hand-written model Model/Controller.v of calculateTargetPwm / ensureNoThirdPartyIsMessingWithUs / trySetManualPwm / setPwm / measureRpm, Model/Fan.v, Model/ControlLoop.v: agreement with the Go code is observed bit-exactly on the generated histories (driver ctrl), not proved', 'one control cycle is atomic in the model; interference during a cycle is represented by interference just before or just after it', 'the curve is a stub SpeedCurve in the driver (real curves: C06/C07); the PID clock is virtual (overlay rewrite of time.Now in util/pid.go)', 'gen/Consts.v regenerated from the source: clamp bounds, rescale divisor, stall threshold, post-raise average'],
     finding_codes={}, finding_text={},
-    level_text='C01_envelope: for every fan kind and limits, every non-empty key-sorted PWM map, every control algorithm (incl. an arbitrary function of target/current), every initial device state and every finite history of polls, cycles (any curve value, dt, faults) and interference, the model never crashes, every request lies in [min,max] and every value handed to the fan is the map output at a nearest supported input (hence in 0..255 for maps with such outputs). Proved by an invariant over histories plus the exhaustive rescale lemmas on 0..255^3. The verified observer judges the same statement on the real controller for 600 (quick) / 12000 (thorough) generated histories and the model is compared bit-exactly.',
+    level_text='C01_envelope: for every fan kind and limits, every non-empty key-sorted PWM map, every control algorithm (incl. an arbitrary function of target/current), every initial device state and every finite history of polls, cycles (any curve value, dt, faults) and interference, the model never crashes, every request lies in [min,max] and every value handed to the fan is the map output at a nearest supported input (hence in 0..255 for maps with such outputs). Proved by an invariant over histories plus the exhaustive rescale lemmas on 0..255^3. The verified observer judges the same statement on the real controller for 600 (quick) / 4000 (thorough) generated histories (plus the limits and limitsrun cases) and the model is compared bit-exactly.',
     level_note='trusted: Coq kernel + FloatAxioms.Leibniz.eqb_spec; hand-written controller model tied to the code by the differential ctrl driver (bit-exact agreement observed, not proved); atomic cycles',
     design_ref='DESIGN.md section 5 C01',
 )
